@@ -60,6 +60,13 @@ def judge(st, cfg, cwd, code, out, err, panic, vehicle, deny=()):
         return
     exp, w = expected(cwd, roots, mode, m or 0, n, df, deny)
     got = collections.Counter(p.decode("utf-8", "surrogateescape") for p in out.split(b"\0")[:-1]) if out else collections.Counter()
+    if any(0xDC80 <= ord(ch) <= 0xDCFF for p_ in exp for ch in p_):
+        # paths with bytes that are not UTF-8 are printed with U+FFFD: compare both sides after the same conversion
+        lossy = lambda t_: os.fsencode(t_).decode("utf-8", "replace")
+        exp = collections.Counter({})
+        for p_, c_ in list(expected(cwd, roots, mode, m or 0, n, df, deny)[0].items()):
+            exp[lossy(p_)] += c_
+        w.optional = set(lossy(p_) for p_ in w.optional)
     if out and not out.endswith(b"\0"):
         st.violate("unterminated-output", None, {"args": args, "out": out[-80:]}, {"args": args})
     st.inc("evaluations")
@@ -138,12 +145,23 @@ def worker(job):
                                         link_kinds=() if fault else ("file", "dir", "dir", "dangling", "ancestor", "ancestor",
                                                                      "outside", "self", "chain"),
                                         p_link=0.3, special=True)
+            if not fault and rng.random() < 0.2:
+                # names that are not valid UTF-8, on unresolvable links (dangling, or through a regular file) and on a directory
+                # that contains one: under -L such a link is still visited as a link (printed lossily, compared the same way)
+                rdirs = [n.path for n in nodes if n.kind == "d"]
+                rawd = rng.choice(rdirs) + "/d\udcff"
+                nodes.append(treegen.Node(rawd, "d"))
+                nodes.append(treegen.Node(rawd + "/dang", "l", target="nowhere"))
+                nodes.append(treegen.Node(rng.choice(rdirs) + "/l\udce9", "l", target="missing\udcfe"))
+                nodes.append(treegen.Node(rng.choice(rdirs) + "/n\udc80d", "l", target="../plain/x"))
+                st.inc("trees_with_non_utf8_names")
             nodes.append(treegen.Node("lroot", "l", target="r"))
             nodes.append(treegen.Node("lfile", "l", target="r/" + "nofile"))
             nodes.append(treegen.Node("plain", "f", size=1))
             treegen.build(sb, nodes)
-            dirs = [n.path for n in nodes if n.kind == "d" and n.path.startswith("r")]
-            links = [n.path for n in nodes if n.kind == "l" and n.path.startswith("r/")]
+            ok_name = lambda p_: not any(0xDC80 <= ord(ch) <= 0xDCFF for ch in p_)       # (starting points must be valid UTF-8)
+            dirs = [n.path for n in nodes if n.kind == "d" and n.path.startswith("r") and ok_name(n.path)]
+            links = [n.path for n in nodes if n.kind == "l" and n.path.startswith("r/") and ok_name(n.path)]
             maxd = max(p.count("/") for p in [n.path for n in nodes if n.path.startswith("r")])
             pool = ["r", "r", "r", "lroot", "plain", "lfile", "missing"] + dirs[:4] + links[:3]
             st.inc("trees")
